@@ -755,20 +755,21 @@ class Fxp():
         if vdtype is None:
             vdtype = val.dtype
         
-        # scaling conversion
+        # scaling conversion (a raw value is a code already: it is not converted, but the object stays a scaled one)
         self.scaled = False
-        if self.scale is not None and self.bias is not None and not raw:
+        if self.scale is not None and self.bias is not None:
+            if self.bias != 0 or self.scale != 1:
+                self.scaled = True # update scaled flag
+
+        if self.scaled and not raw:
             if self.bias != 0:
                 val = val - self.bias
             if self.scale != 1:
                 val = val / self.scale
 
-            if self.bias != 0 or self.scale != 1:
-                self.scaled = True # update scaled flag
-
-                # update vdtype due scaling tranformation
-                if vdtype == int and (isinstance(self.bias, float) or self.scale != 1):
-                    vdtype = float
+            # update vdtype due scaling tranformation
+            if vdtype == int and (isinstance(self.bias, float) or self.scale != 1):
+                vdtype = float
             
             # check if it is a numpy array
             if not isinstance(val, (np.ndarray, np.generic)):
